@@ -1,6 +1,302 @@
-(* C46 -- proofs about the SuperSpeed stream IN endpoint model (Model/SsIn.v). *)
+(* C46 -- proofs about the SuperSpeed stream IN endpoint model (Model/SsIn.v).
+
+   Main theorem (ssin_accepted): for every max_packet_size mps with 4 | mps, 8 <= mps, every endpoint
+   number and sequence-number width, and EVERY input history, the referee of SsIn.v accepts the model's
+   interface trace (or the environment broke its contract first).                                   *)
 From Coq Require Import NArith ZArith List Bool Lia ZifyBool ZifyN.
 Import ListNotations.
-From LunaLib Require Import Netlist Machine PackN.
+From LunaLib Require Import Netlist Machine.
 From LunaModel Require Import SsIn.
 Open Scope N_scope.
+Ltac Zify.zify_post_hook ::= Z.div_mod_to_equations.
+
+(* ------------------------------------------------------------------------------------------ *)
+(* 1. Buffers as item lists                                                                    *)
+
+(* the words of a buffer with their byte counts: 4 each, except that the last one takes what is left *)
+Fixpoint witems (ws : list N) (fill : N) : list item :=
+  match ws with
+  | [] => []
+  | w :: t => W w (N.min 4 fill) :: witems t (fill - N.min 4 fill)
+  end.
+
+Definition bitems (b : buf) : list item :=
+  witems (b_words b) (b_fill b) ++ (if b_ended b then [E] else []).
+
+(* the word list fits the fill count *)
+Definition fits (ws : list N) (fill : N) : Prop :=
+  4 * N.of_nat (length ws) < fill + 4 /\ fill <= 4 * N.of_nat (length ws).
+
+Lemma fits_nil : forall fill, fits [] fill <-> fill = 0.
+Proof. intros. unfold fits. simpl. lia. Qed.
+
+Lemma fits_cons : forall w t fill, fits (w :: t) fill -> 0 < fill /\ fits t (fill - N.min 4 fill).
+Proof.
+  intros w t fill [H1 H2]. cbn [length] in *. rewrite Nat2N.inj_succ in *. unfold fits. lia.
+Qed.
+
+Lemma witems_length : forall ws fill, length (witems ws fill) = length ws.
+Proof. induction ws; intros; simpl; [reflexivity | rewrite IHws; reflexivity]. Qed.
+
+Lemma witems_snoc : forall ws fill w n,
+  fill = 4 * N.of_nat (length ws) -> 1 <= n <= 4 ->
+  witems (ws ++ [w]) (fill + n) = witems ws fill ++ [W w n].
+Proof.
+  induction ws as [|x t IH]; intros fill w n Hf Hn.
+  - simpl in *. subst fill. replace (N.min 4 (0 + n)) with n by lia. reflexivity.
+  - cbn [length] in Hf. rewrite Nat2N.inj_succ in Hf. cbn [app witems].
+    replace (N.min 4 (fill + n)) with 4 by lia. replace (N.min 4 fill) with 4 by lia.
+    f_equal. replace (fill + n - 4) with ((fill - 4) + n) by lia. apply IH; lia.
+Qed.
+
+Lemma pkt_bytes_witems : forall ws fill, fits ws fill -> pkt_bytes (witems ws fill) = fill.
+Proof.
+  induction ws as [|w t IH]; intros fill H.
+  - apply fits_nil in H. subst. reflexivity.
+  - apply fits_cons in H as [Hp Ht]. cbn [witems pkt_bytes]. rewrite IH by exact Ht. lia.
+Qed.
+
+Lemma pkt_bytes_app : forall a b, pkt_bytes (a ++ b) = pkt_bytes a + pkt_bytes b.
+Proof. induction a as [|[w n|] t IH]; intros; simpl; [reflexivity | rewrite IH; lia | apply IH]. Qed.
+
+(* taking a packet out of "buffer contents followed by l" *)
+Lemma take_pkt_witems : forall ws fill room l, fits ws fill -> fill <= room ->
+  take_pkt room (witems ws fill ++ l) =
+  match take_pkt (room - fill) l with
+  | Some (p, r) => Some (witems ws fill ++ p, r)
+  | None => None
+  end.
+Proof.
+  induction ws as [|w t IH]; intros fill room l Hf Hr.
+  - apply fits_nil in Hf. subst. simpl. rewrite N.sub_0_r. destruct (take_pkt room l) as [[p r]|]; reflexivity.
+  - apply fits_cons in Hf as [Hp Ht]. cbn [witems app take_pkt].
+    destruct (room =? 0) eqn:E0; [lia|].
+    destruct (N.min 4 fill <=? room) eqn:E1; [|lia].
+    rewrite IH by (try exact Ht; lia).
+    replace (room - N.min 4 fill - (fill - N.min 4 fill)) with (room - fill) by lia.
+    destruct (take_pkt (room - fill) l) as [[p r]|]; reflexivity.
+Qed.
+
+Lemma take_pkt_E : forall room l, room <> 0 -> take_pkt room (E :: l) = Some ([], l).
+Proof. intros. simpl. destruct (room =? 0) eqn:E0; [lia | reflexivity]. Qed.
+
+Lemma take_pkt_0 : forall l, take_pkt 0 l = Some ([], l).
+Proof. destruct l; reflexivity. Qed.
+
+Lemma take_pkt_nil : forall room, room <> 0 -> take_pkt room [] = None.
+Proof. intros. simpl. destruct (room =? 0) eqn:E0; [lia | reflexivity]. Qed.
+
+(* position k of a buffer's item list *)
+Lemma skipn_witems : forall k ws fill, (k < length ws)%nat -> fits ws fill ->
+  skipn k (witems ws fill) =
+  W (nth k ws 0) (N.min 4 (fill - 4 * N.of_nat k)) :: skipn (S k) (witems ws fill).
+Proof.
+  induction k as [|k IH]; intros ws fill Hk Hf.
+  - destruct ws as [|w t]; [simpl in Hk; lia|]. simpl. rewrite N.sub_0_r. reflexivity.
+  - destruct ws as [|w t]; [simpl in Hk; lia|]. simpl in Hk.
+    pose proof Hf as [Hf1 Hf2]. cbn [length] in Hf1, Hf2. rewrite Nat2N.inj_succ in Hf1, Hf2.
+    apply fits_cons in Hf as [Hp Ht].
+    change (skipn (S k) (witems (w :: t) fill)) with (skipn k (witems t (fill - N.min 4 fill))).
+    change (skipn (S (S k)) (witems (w :: t) fill)) with (skipn (S k) (witems t (fill - N.min 4 fill))).
+    rewrite IH by (try exact Ht; lia). cbn [nth]. f_equal. f_equal.
+    rewrite Nat2N.inj_succ. assert (N.of_nat k < N.of_nat (length t)) by lia. lia.
+Qed.
+
+Lemma skipn_all_witems : forall ws fill, skipn (length ws) (witems ws fill) = [].
+Proof. intros. rewrite <- (witems_length ws fill). apply skipn_all. Qed.
+
+(* ------------------------------------------------------------------------------------------ *)
+(* 2. The invariant relating the endpoint model and the referee                                *)
+Section Inv.
+  Variables (mps ep sb : N).
+  Hypothesis Hmps8 : 8 <= mps.
+  Hypothesis Hmps4 : mps mod 4 = 0.
+
+  (* the buffer being filled *)
+  Definition wbwf (b : buf) : Prop :=
+    fits (b_words b) (b_fill b) /\ b_fill b <= mps /\
+    (b_ended b = false -> b_fill b mod 4 = 0) /\ (b_ended b = true -> 0 < b_fill b).
+  (* a buffer holding a data packet that can be sent *)
+  Definition complete (b : buf) : Prop :=
+    fits (b_words b) (b_fill b) /\ 0 < b_fill b <= mps /\ (b_fill b = mps \/ b_ended b = true).
+  (* a buffer standing for a pending zero-length packet *)
+  Definition zlp_pending (b : buf) : Prop := b_fill b = 0 /\ b_words b = [] /\ b_ended b = true.
+
+  Definition rb_items (s : ss_state) : list item := witems (b_words (s_rb s)) (b_fill (s_rb s)).
+
+  (* the tx register holds item k of the read buffer *)
+  Definition reg_holds (s : ss_state) (k : nat) : Prop :=
+    s_op s = nth k (b_words (s_rb s)) 0 /\
+    s_ov s = vmask (N.min 4 (b_fill (s_rb s) - 4 * N.of_nat k)) /\
+    s_of s = (k =? 0)%nat /\
+    s_ol s = (S k =? length (b_words (s_rb s)))%nat.
+
+  (* ... and the referee either follows the packet, or is about to see its first word *)
+  Definition fly_rel (s : ss_state) (r : ref_state) (k : nat) : Prop :=
+    (r_fly r = Some ((k =? 0)%nat, skipn k (rb_items s)) /\ r_req r = None /\ r_out r = true) \/
+    (k = O /\ r_fly r = None /\ r_req r = Some 2).
+
+  Definition Inv (s : ss_state) (r : ref_state) : Prop :=
+    s_seq s = r_exp r /\ wbwf (s_wb s) /\
+    match s_fsm s with
+    | WAIT_FOR_DATA =>
+        r_pend r = bitems (s_wb s) /\ wb_ready mps (s_wb s) = true /\ b_fill (s_rb s) = 0 /\
+        r_out r = false /\ r_req r = None /\ r_fly r = None /\ r_nrdy r = s_erdy s /\ s_ov s = 0
+    | REQUEST_IN_TOKEN =>
+        r_pend r = bitems (s_rb s) ++ bitems (s_wb s) /\ complete (s_rb s) /\
+        r_out r = false /\ r_req r = None /\ r_fly r = None /\ r_nrdy r = true /\ s_erdy s = true /\ s_ov s = 0
+    | WAIT_TO_SEND =>
+        r_pend r = bitems (s_rb s) ++ bitems (s_wb s) /\ (complete (s_rb s) \/ zlp_pending (s_rb s)) /\
+        r_out r = false /\ r_req r = None /\ r_fly r = None /\ r_nrdy r = false /\ s_erdy s = false /\ s_ov s = 0
+    | SEND_PACKET =>
+        r_pend r = bitems (s_rb s) ++ bitems (s_wb s) /\ complete (s_rb s) /\
+        r_nrdy r = false /\ s_erdy s = false /\ s_lpz s = false /\
+        ((s_pos s = 0 /\ s_ov s = 0 /\ r_fly r = None /\ r_req r = Some 1) \/
+         (exists k, s_pos s = N.of_nat (S k) /\ (S k < length (b_words (s_rb s)))%nat /\
+                    reg_holds s k /\ fly_rel s r k))
+    | WAIT_FOR_ACK =>
+        r_nrdy r = false /\ s_erdy s = false /\
+        if s_lpz s then
+          r_pend r = E :: bitems (s_wb s) /\ s_rb s = buf_empty /\
+          s_ov s = 0 /\ r_fly r = None /\ r_req r = None /\ r_out r = true
+        else
+          r_pend r = bitems (s_rb s) ++ bitems (s_wb s) /\ complete (s_rb s) /\
+          ((s_ov s = 0 /\ r_fly r = None /\ r_req r = None /\ r_out r = true) \/
+           (exists k, S k = length (b_words (s_rb s)) /\ reg_holds s k /\ fly_rel s r k))
+    end.
+
+  Lemma Inv_init : Inv ss_init ref_init.
+  Proof.
+    unfold Inv, ss_init, ref_init, wbwf, bitems, wb_ready, buf_empty, fits. cbn.
+    repeat split; try reflexivity; try lia; try discriminate.
+  Qed.
+
+  (* ---- buffers and take_pkt ---- *)
+  Lemma take_complete : forall b l, complete b ->
+    take_pkt mps (bitems b ++ l) =
+    Some (witems (b_words b) (b_fill b), (if (b_fill b =? mps) && b_ended b then [E] else []) ++ l).
+  Proof.
+    intros b l [Hf [Hr Hc]]. unfold bitems. rewrite <- app_assoc.
+    rewrite take_pkt_witems by (try exact Hf; lia).
+    destruct (b_fill b =? mps) eqn:Em.
+    - apply N.eqb_eq in Em. rewrite Em, N.sub_diag, take_pkt_0, app_nil_r. reflexivity.
+    - apply N.eqb_neq in Em. destruct Hc as [Hc|Hc]; [contradiction|]. rewrite Hc. cbn [app andb].
+      rewrite take_pkt_E by lia. rewrite app_nil_r. reflexivity.
+  Qed.
+
+  Lemma take_open : forall b, wbwf b -> wb_ready mps b = true -> take_pkt mps (bitems b) = None.
+  Proof.
+    intros b [Hf [Hle [Hm He]]] Hr. unfold wb_ready in Hr. apply andb_true_iff in Hr as [Hr1 Hr2].
+    apply negb_true_iff in Hr2. unfold bitems. rewrite Hr2.
+    rewrite take_pkt_witems by (try exact Hf; lia). cbn [app]. rewrite take_pkt_nil by lia. reflexivity.
+  Qed.
+
+  Lemma take_zlp : forall l, take_pkt mps (E :: l) = Some ([], l).
+  Proof. intros. apply take_pkt_E. lia. Qed.
+
+  (* a write buffer that no longer takes data holds a complete packet *)
+  Lemma closed_complete : forall b, wbwf b -> wb_ready mps b = false -> complete b.
+  Proof.
+    intros b [Hf [Hle [Hm He]]] Hr. unfold wb_ready in Hr. unfold complete.
+    destruct (b_ended b) eqn:Ee.
+    - specialize (He eq_refl). split; [exact Hf|]. split; [lia|]. right. reflexivity.
+    - specialize (Hm eq_refl). rewrite andb_true_r in Hr. apply N.leb_gt in Hr.
+      split; [exact Hf|]. split; [lia|]. left. lia.
+  Qed.
+
+  (* ---- the stream side ---- *)
+  Lemma stream_cases : forall i, stream_ok i = true ->
+    i_valid i = 0 \/ (i_valid i = 15) \/
+    ((i_valid i = 1 \/ i_valid i = 3 \/ i_valid i = 7) /\ i_last i = true).
+  Proof.
+    intros i H. unfold stream_ok in H. cbv zeta in H.
+    destruct (i_valid i =? 0) eqn:E0; [left; apply N.eqb_eq; exact E0|].
+    destruct (i_valid i =? 15) eqn:E15; [right; left; apply N.eqb_eq; exact E15|].
+    right; right. cbn [orb] in H. apply andb_true_iff in H as [H1 H2]. split; [|exact H2].
+    destruct (i_valid i =? 1) eqn:E1; [left; apply N.eqb_eq; exact E1|].
+    destruct (i_valid i =? 3) eqn:E3; [right; left; apply N.eqb_eq; exact E3|].
+    destruct (i_valid i =? 7) eqn:E7; [right; right; apply N.eqb_eq; exact E7|]. discriminate.
+  Qed.
+
+  (* what the stream word of a cycle does to the write buffer, and what the referee records *)
+  Lemma write_step : forall s i (o : ss_out), wbwf (s_wb s) -> stream_ok i = true ->
+    o_ready o = wb_ready mps (s_wb s) ->
+    wbwf (wb_after mps s i) /\
+    bitems (wb_after mps s i) = bitems (s_wb s) ++ accepted_items i o /\
+    (* the buffer is complete afterwards iff it was before or the word completed it *)
+    (wb_ready mps (s_wb s) = true ->
+       wb_ready mps (wb_after mps s i) = negb (completing mps s i)).
+  Proof.
+    intros s i o Hw Hs Ho. unfold wb_after, accepted_items, wr_en, completing. rewrite Ho.
+    destruct Hw as [Hf [Hle [Hm He]]].
+    destruct (wb_ready mps (s_wb s)) eqn:Hr.
+    2:{ rewrite !andb_false_r. split; [|split].
+        - exact (conj Hf (conj Hle (conj Hm He))).
+        - rewrite app_nil_r. reflexivity.
+        - intro; discriminate. }
+    unfold wb_ready in Hr. apply andb_true_iff in Hr as [Hr1 Hr2]. apply negb_true_iff in Hr2.
+    specialize (Hm Hr2). pose proof Hf as [Hf1 Hf2].
+    assert (Hfl : b_fill (s_wb s) = 4 * N.of_nat (length (b_words (s_wb s)))) by lia.
+    rewrite !andb_true_r.
+    destruct (stream_cases i Hs) as [Hv|[Hv|[Hv Hl]]].
+    - rewrite Hv. change (negb (0 =? 0)) with false. change (N.testbit 0 0) with false. cbn [andb negb].
+      split; [|split].
+      + exact (conj Hf (conj Hle (conj (fun _ => Hm) He))).
+      + rewrite app_nil_r. reflexivity.
+      + intros _. unfold wb_ready. rewrite Hr2, Hr1. reflexivity.
+    - rewrite Hv. change (negb (15 =? 0)) with true. change (nbytes 15) with 4.
+      change (N.testbit 15 0) with true. cbn [andb]. rewrite Hr2. cbn [orb].
+      split; [|split].
+      + unfold wbwf, fits. cbn [b_words b_fill b_ended]. rewrite app_length. cbn [length].
+        rewrite Nat.add_1_r, Nat2N.inj_succ. repeat split; try lia.
+      + unfold bitems. cbn [b_words b_fill b_ended]. rewrite Hr2.
+        rewrite (witems_snoc _ _ _ 4 Hfl) by lia. rewrite app_nil_r, <- app_assoc. reflexivity.
+      + intros _. unfold wb_ready. cbn [b_fill b_ended].
+        destruct (i_last i); cbn [negb andb orb]; [rewrite orb_true_r, andb_false_r; reflexivity|].
+        rewrite orb_false_r, andb_true_r. lia.
+    - rewrite Hl, !orb_true_r, ?Hr2. cbn [orb].
+      assert (Hn : 1 <= nbytes (i_valid i) <= 3 /\ (i_valid i =? 0) = false /\ N.testbit (i_valid i) 0 = true)
+        by (destruct Hv as [Hv|[Hv|Hv]]; rewrite Hv; repeat split; cbn; lia).
+      destruct Hn as [Hn [Hz Hb]]. rewrite Hz, Hb. cbn [negb andb].
+      split; [|split].
+      + unfold wbwf, fits. cbn [b_words b_fill b_ended]. rewrite app_length. cbn [length].
+        rewrite Nat.add_1_r, Nat2N.inj_succ. repeat split; try lia; intro; discriminate.
+      + unfold bitems. cbn [b_words b_fill b_ended]. rewrite Hr2.
+        rewrite (witems_snoc _ _ _ _ Hfl) by lia. rewrite app_nil_r, <- app_assoc. reflexivity.
+      + intros _. unfold wb_ready. cbn [b_ended negb]. rewrite andb_false_r. reflexivity.
+  Qed.
+
+  (* ---- the environment's move ---- *)
+  Definition retry_c (r : ref_state) (i : N) : bool := i_retry i || negb (i_nseq i =? (r_exp r + 1) mod 2 ^ sb).
+
+  Lemma env_phase_cases : forall r i r1, env_phase mps ep sb r i = Some r1 ->
+    stream_ok i = true /\ i_hsready i = negb (r_gen r) /\
+    ((r_to_us ep i = false /\ r1 = r) \/
+     (r_to_us ep i = true /\ r_req r = None /\ r_fly r = None /\ r_nrdy r = false /\ r_gen r = false /\
+      ((r_out r = true /\ retry_c r i = true /\
+        r1 = set_ref (r_pend r) (r_exp r) true (Some 0) None false false) \/
+       (r_out r = true /\ retry_c r i = false /\ exists p rest, take_pkt mps (r_pend r) = Some (p, rest) /\
+        r1 = set_ref rest ((r_exp r + 1) mod 2 ^ sb) false (if i_nump i =? 0 then None else Some 0) None false false) \/
+       (r_out r = false /\ (i_nump i =? 0) = false /\
+        r1 = set_ref (r_pend r) (r_exp r) false (Some 0) None false false)))).
+  Proof.
+    intros r i r1 H. unfold env_phase in H.
+    destruct (stream_ok i) eqn:Es; [|discriminate]. cbn [negb] in H.
+    destruct (Bool.eqb (i_hsready i) (negb (r_gen r))) eqn:Eg; [|discriminate]. cbn [negb] in H.
+    apply Bool.eqb_prop in Eg.
+    destruct (i_hsdone i && negb (r_gen r)); [discriminate|].
+    split; [reflexivity|]. split; [exact Eg|].
+    destruct (r_to_us ep i) eqn:Eu.
+    2:{ left. split; [reflexivity|]. inversion H. reflexivity. }
+    right. split; [reflexivity|].
+    destruct (r_req r) eqn:Er; [discriminate|]. destruct (r_fly r) eqn:Ef; [discriminate|].
+    destruct (r_nrdy r) eqn:En; [discriminate|]. destruct (r_gen r) eqn:Egen; [discriminate|]. cbn [orb] in H.
+    repeat (split; [reflexivity|]).
+    destruct (r_out r) eqn:Eo.
+    - fold (retry_c r i) in H. destruct (retry_c r i) eqn:Ec.
+      + left. inversion H. repeat split; reflexivity.
+      + right; left. destruct (take_pkt mps (r_pend r)) as [[p rest]|] eqn:Et; [|discriminate].
+        inversion H. repeat split; try reflexivity. exists p, rest. split; reflexivity.
+    - right; right. destruct (i_nump i =? 0) eqn:En0; [discriminate|]. inversion H. repeat split; reflexivity.
+  Qed.
+End Inv.
